@@ -5,8 +5,9 @@
    * every quadrature table: positive weights, points inside the reference element, and exactness
      (within 5e-15) on all monomials up to the nominal degree (Gauss-Legendre 2n-1; the 9-point table
      is Gauss-Lobatto, degree 15; triangle rules 1, 4, 8, 10, 12);
-   * sign, fan structure, exact additivity along fan diagonals, coordinate entry points, node/face
-     numbering independence, cache transparency, invariance under every orthogonal map.
+   * sign, fan structure, exact additivity along fan diagonals, coordinate entry points (function
+     level and Grid level for the current tree), node/face numbering independence, cache
+     transparency, invariance under every orthogonal map.
    What is NOT proved (validated every run against the exact spherical excess by harness/c05.py):
    the accuracy figures 1e-2 / 1e-4 / 1e-6 and the convergence with the order; independence of the
    starting corner and additivity over cuts that are not fan diagonals hold only up to the
@@ -98,30 +99,37 @@ Theorem C05_coords : forall (T : Type) (O : c05_ops T) rule order f xs,
   c05_face_area O rule order None (map (fun p => f (c05_v0 p) (c05_v1 p)) xs).
 Proof. exact @c05_face_area_coords. Qed.
 Print Assumptions C05_coords.
-(* Grid.compute_face_areas as it is (dim = 2 hard-wired): on the Cartesian path node_z is replaced
-   by zeros ... *)
-Theorem C05_coords_grid_drops_z : forall (T : Type) (O : c05_ops T) conv g rule order,
-  c05_compute O false conv g rule order false =
-  c05_all_areas O (fun i => (c05_v0 (c05_xyz g i), c05_v1 (c05_xyz g i),
-                            c05_mul O (c05_v0 (c05_xyz g i)) (c05_zero O)))
-                (c05_conn g) (c05_npf g) true rule order None.
-Proof. exact @c05_compute_cart_drops_z. Qed.
-Print Assumptions C05_coords_grid_drops_z.
-(* ... so the two inputs disagree (area 0 against pi/2 for the octant triangle): the clause
-   "independent of spherical or Cartesian input" is REFUTED for the faithful model *)
-Theorem C05_coords_grid_refuted :
-  exists lonlat xyz t npf tbl a b,
-    c05_fx_grid_areas false 1 4 false tbl lonlat xyz t npf = Some [a] /\
-    c05_fx_face_area 1 4 false tbl xyz = Some b /\
-    fst a = 0%Z /\ (3 * c05_S / 2 < fst b)%Z.
-Proof. exact c05_coords_grid_refuted. Qed.
-Print Assumptions C05_coords_grid_refuted.
-(* with dim = 3 on the Cartesian path (the one-line repair) the two inputs agree exactly *)
+(* Grid.compute_face_areas of the CURRENT tree (the `dim` flag c05_dim_cartesian3 is regenerated from
+   grid.py on every run; `dim = 2 if latlon else 3` since fix 4eed51d9): lon/lat and Cartesian node
+   coordinates give exactly the same areas when node_xyz is the conversion of node_lon/lat *)
+Theorem C05_coords_grid : forall (T : Type) (O : c05_ops T) conv g rule order,
+  (forall i, c05_xyz g i = conv (c05_v0 (c05_lonlat g i)) (c05_v1 (c05_lonlat g i))) ->
+  c05_compute_cur O conv g rule order false = c05_compute_cur O conv g rule order true.
+Proof. exact @c05_compute_cur_coords. Qed.
+Print Assumptions C05_coords_grid.
+(* the same for the explicit dim = 3 variant, whatever the generated flag is *)
 Theorem C05_coords_grid_repaired : forall (T : Type) (O : c05_ops T) conv g rule order,
   (forall i, c05_xyz g i = conv (c05_v0 (c05_lonlat g i)) (c05_v1 (c05_lonlat g i))) ->
   c05_compute O true conv g rule order false = c05_compute O true conv g rule order true.
 Proof. exact @c05_compute_coords. Qed.
 Print Assumptions C05_coords_grid_repaired.
+(* record of the repaired defect: with `dim = 2` hard-wired (before 4eed51d9) the Cartesian path
+   replaced node_z by zeros ... *)
+Theorem C05_coords_grid_dim2_drops_z : forall (T : Type) (O : c05_ops T) conv g rule order,
+  c05_compute O false conv g rule order false =
+  c05_all_areas O (fun i => (c05_v0 (c05_xyz g i), c05_v1 (c05_xyz g i),
+                            c05_mul O (c05_v0 (c05_xyz g i)) (c05_zero O)))
+                (c05_conn g) (c05_npf g) true rule order None.
+Proof. exact @c05_compute_cart_drops_z. Qed.
+Print Assumptions C05_coords_grid_dim2_drops_z.
+(* ... so the two inputs disagreed (area 0 against pi/2 for the octant triangle) *)
+Theorem C05_coords_grid_dim2_refuted :
+  exists lonlat xyz t npf tbl a b,
+    c05_fx_grid_areas false 1 4 false tbl lonlat xyz t npf = Some [a] /\
+    c05_fx_face_area 1 4 false tbl xyz = Some b /\
+    fst a = 0%Z /\ (3 * c05_S / 2 < fst b)%Z.
+Proof. exact c05_coords_grid_refuted. Qed.
+Print Assumptions C05_coords_grid_dim2_refuted.
 
 (* ---- numbering: nodes may be renumbered, and a face's area depends on its own row only ---- *)
 Theorem C05_renumber : forall (T : Type) (O : c05_ops T) (pos pos' : Z -> c05_vec) (pi : Z -> Z)
